@@ -391,6 +391,8 @@ def compare_op(op, il, ml, loaded, info, qfit, subnormal):
                 pi, pm = PtrClasses(), PtrClasses()
                 k, a = orc[1], orc[2]
                 tl = tolerance(k, a, rest)
+                if rest:      # rest costs are not among the oracle's terms: add the magnitude of the fragment scores
+                    tl = tl + tolerance(k, sum(abs(frac(y[0])) for y in rm), rest)
                 for j, (x, y) in enumerate(zip(ri, rm)):
                     d = chart_diff(chart(x[1:7]), chart(y[1:7]), pi, pm, numeric)
                     if d:
@@ -454,6 +456,8 @@ def compare_op(op, il, ml, loaded, info, qfit, subnormal):
                 tl = tolerance(k, a, rest)
                 nums_i = [fb(v) for v in hi]
                 nums_m = [frac(v) for v in hm]
+                # rest costs are not among the oracle's terms: add the magnitude of the values themselves
+                tl = tl + tolerance(k, sum(abs(q) for q in nums_m), rest)
                 if numeric and any(abs(p - q) > tl for p, q in zip(nums_i, nums_m)):
                     probs.append({"kind": "partial-values", "cls": c, "impl": [float(v) for v in nums_i], "model": [float(v) for v in nums_m], "tol": float(tl)})
                     continue
